@@ -80,7 +80,13 @@ func c16Ops() []c16Op {
 			return rt.SexpProg(tree)
 		}}
 	}
-	return []c16Op{parseOp("valid", c16ParseSrc), parseOp("bad", c16BadSrc), runOp("plain.p"), runOp("grok.p"), runOp("use.p"), runOp("loop.p"), runOp("all.p")}
+	loadOther := c16Op{Name: "load(other set, same texts)", Do: func(env *c16Env, slot int) (out string) {
+		// another deployment: identical text for use.p and grok.p, a different plain.p
+		other := map[string]string{"use.p": c16Sources["use.p"], "grok.p": c16Sources["grok.p"], "plain.p": "add_key(other_deployment, true)\n"}
+		ok, errs := drv.Load(other)
+		return fmt.Sprintf("loaded=%d errors=%d", len(ok), len(errs))
+	}}
+	return []c16Op{parseOp("valid", c16ParseSrc), parseOp("bad", c16BadSrc), loadOther, runOp("plain.p"), runOp("grok.p"), runOp("use.p"), runOp("loop.p"), runOp("all.p")}
 }
 
 func c16Load() (*c16Env, error) {
